@@ -33,20 +33,36 @@ def main():
         env['CARGO_TARGET_DIR'] = os.path.join(wt, 'target')
         env.pop('RUSTUP_TOOLCHAIN', None)
         demo = os.path.join(mdir, 'demo.rs')
-        tests_dir = os.path.join(wt, 'tests')
-        os.makedirs(tests_dir, exist_ok=True)
-        shutil.copy(demo, os.path.join(tests_dir, 'zz_demo_mutant.rs'))
-        rc0, o0 = sh('cargo test --offline --test zz_demo_mutant 2>&1 | tail -15', cwd=wt, env=env)
-        out['demo_without_patch'] = 'passes' if ('test result: ok' in o0 and 'FAILED' not in o0) else 'DOES NOT PASS: ' + o0[-600:]
+        as_example = '#[test]' not in open(demo).read()
+        if as_example:
+            # the demo is a program (fn main; exit status != 0 or panic = property violated)
+            ddir, dcmd = os.path.join(wt, 'examples'), 'cargo run -q --offline --example zz_demo_mutant 2>&1 | tail -25; echo EXIT=${PIPESTATUS[0]}'
+        else:
+            ddir, dcmd = os.path.join(wt, 'tests'), 'cargo test --offline --test zz_demo_mutant 2>&1 | tail -25'
+        os.makedirs(ddir, exist_ok=True)
+        dfile = os.path.join(ddir, 'zz_demo_mutant.rs')
+        shutil.copy(demo, dfile)
+
+        def demo_ok(o):
+            if as_example:
+                return 'EXIT=0' in o
+            return 'test result: ok' in o and 'FAILED' not in o
+        rc0, o0 = sh(['bash', '-c', dcmd], cwd=wt, env=env)
+        out['demo_without_patch'] = 'passes' if demo_ok(o0) else 'DOES NOT PASS: ' + o0[-600:]
         rc, o = sh(['git', 'apply', os.path.join(mdir, 'patch.diff')], cwd=wt)
         if rc != 0:
             # the patch was written against an earlier HEAD: retry with context fuzz
             rc, o = sh('patch -p1 --fuzz=3 --no-backup-if-mismatch < %s' % os.path.join(mdir, 'patch.diff'), cwd=wt)
             out['patch_applied_with_fuzz'] = rc == 0
         out['patch_applies'] = rc == 0
-        rc1, o1 = sh('cargo test --offline --test zz_demo_mutant 2>&1 | tail -25', cwd=wt, env=env)
-        out['demo_with_patch'] = 'fails' if ('FAILED' in o1 or 'panicked' in o1 or 'error' in o1) and 'test result: ok' not in o1 else 'DOES NOT FAIL'
-        os.unlink(os.path.join(tests_dir, 'zz_demo_mutant.rs'))
+        rc1, o1 = sh(['bash', '-c', dcmd], cwd=wt, env=env)
+        if as_example:
+            out['demo_with_patch'] = 'fails' if ('EXIT=' in o1 and 'EXIT=0' not in o1 and 'could not compile' not in o1) else 'DOES NOT FAIL'
+        else:
+            out['demo_with_patch'] = 'fails' if ('FAILED' in o1 or 'panicked' in o1 or 'error' in o1) and 'test result: ok' not in o1 else 'DOES NOT FAIL'
+        os.unlink(dfile)
+        if as_example and not os.listdir(ddir):
+            os.rmdir(ddir)
         rc2, o2 = sh('cargo test --workspace --offline 2>&1 | grep -E "test result|FAILED|error\\[" ', cwd=wt, env=env)
         passed = sum(int(l.split('ok.')[1].split('passed')[0]) for l in o2.splitlines() if 'test result: ok.' in l)
         out['suite_with_patch'] = '%d passed%s' % (passed, '' if 'FAILED' not in o2 and 'error[' not in o2 else ' BUT FAILURES: ' + o2[-400:])
